@@ -8,6 +8,7 @@ phase B (fresh interpreter, registry history of the loading process = WORLD):
 """
 import copy, json, os, pickle, re, sys, multiprocessing as mp
 
+from harness.drivers import pmap
 import optree
 from harness import vuniv as U
 from harness.drivers.d_tree import proj_path, proj_acc
@@ -217,8 +218,8 @@ def main():
         register_dual()
         dcase, dblob = dual_case('same-process')
         open(blobs + '.dual', 'w').write(dblob)
-        with mp.Pool(int(os.environ.get('VERIF_PROCS', '16')), initializer=U.setup_world) as pool, open(outp, 'w') as fc, open(blobs, 'w') as fb:
-            for cs, bs in pool.imap(dump_work, lines, chunksize=16):
+        with open(outp, 'w') as fc, open(blobs, 'w') as fb:
+            for cs, bs in pmap(dump_work, lines, init=U.setup_world, chunksize=16):
                 for c in cs:
                     fc.write(c + '\n')
                 for b in bs:
